@@ -13,7 +13,7 @@ import (
 // to the bound peer is not relayed, while ChannelData on the still-live binding is; once the binding has
 // expired too, nothing is.
 //
-//verif:props=C01,C07 bounds="one allocation, one channel binding made by the real AddChannelBind (arbitrary peer, any valid number); the permission timer fires while the binding is live, then optionally the binding's timer; then one Send indication to an arbitrary peer address and one ChannelData on an arbitrary number (payload 0..4 bytes)"
+//verif:props=C01,C07 replay=model bounds="one allocation, one channel binding made by the real AddChannelBind (arbitrary peer, any valid number); the permission timer fires while the binding is live, then optionally the binding's timer; then one Send indication to an arbitrary peer address and one ChannelData on an arbitrary number (payload 0..4 bytes); then an identical re-bind of the live channel"
 func VerifHarness_C01_send_after_permission_expiry() {
 	s := vNewSrv(false, false)
 	c1 := allocation.VUDPAddr4()
@@ -49,6 +49,19 @@ func VerifHarness_C01_send_after_permission_expiry() {
 		vAssert(allocation.VSameUDP(ra.Writes[0].Addr.(*net.UDPAddr), p), "C01.channel_datagram_goes_to_the_bound_peer")
 	}
 	vAssert(len(s.conn.Writes) == 0, "C01.send_indication_is_never_answered")
+	if !bindingGone {
+		// the client re-binds the (still live) channel: that refreshes the binding AND gives the peer a full
+		// permission again, although the old one had expired
+		resets := vTimerResets(cb.VTimer())
+		e := a.AddChannelBind(allocation.NewChannelBind(n, p, &allocation.VLogger{}), s.cbt, s.pt)
+		vAssert(e == nil, "C08.identical_rebind_is_accepted")
+		vAssert(vTimerResets(cb.VTimer()) == resets+1, "C07.rebind_refreshes_the_binding")
+		np := a.GetPermission(p)
+		vAssert(np != nil, "C07.rebind_reinstalls_an_expired_permission")
+		if np != nil {
+			vAssert(vAnd(vTimerArmed(np.VTimer()), vTimerDur(np.VTimer()) == s.pt), "C07.rebind_permission_lasts_a_full_permission_timeout")
+		}
+	}
 	vCover(vAnd(vIPEq(peer.IP, p.IP), peer.Port == p.Port), "C01.cover_send_to_the_bound_peer_itself")
 	vReach("end")
 }
